@@ -370,6 +370,24 @@ int cq_singular_values(const cq_cal_t *cal, int sys, int findex,
 	*smax = 1.0;
 	return 0;
     }
+    /* equilibrate the columns: the M-scaled columns carry the units of
+     * the readings (receiver gain); identifiability and the accuracy of
+     * an LU / QR solve do not depend on a scaling of the unknowns */
+    for (int j = 0; j < nunk; ++j) {
+	double v = 0.0;
+
+	for (int i = 0; i < neq; ++i)
+	    v += creal(a[i * nunk + j] * conj(a[i * nunk + j]));
+	if (v == 0.0) {
+	    free(a);
+	    *smin = 0.0;
+	    *smax = 1.0;
+	    return 0;
+	}
+	v = sqrt(v);
+	for (int i = 0; i < neq; ++i)
+	    a[i * nunk + j] /= v;
+    }
     cq_svd(neq, nunk, a, sv);
     *smin = INFINITY;
     *smax = 0.0;
